@@ -28,6 +28,7 @@ import uuid
 import common
 from common import Broken, Violation
 import tr_regex
+import tr_regflow
 
 MANIFEST = {
     "text": "Executable Gallina model of registration.py / registry.py / custom.py / the Custom* decorators / "
@@ -40,8 +41,13 @@ MANIFEST = {
             "intact around the user's, equal slot for slot to the specification's common properties, and keeps the "
             "C02 side condition world_refines for the extended world. Correspondence: histories in fresh "
             "interpreters + name strings + dumped live custom classes vs the model; oracle = reference dictionary + "
-            "naming rules + round-trip/validation/versioning of registered custom types.",
-    "design_ref": "DESIGN.md 6/C19, 7 row C19",
+            "naming rules + round-trip/validation/versioning of registered custom types (incl. other extensions on "
+            "the instance, version-dependent validation compared with a built-in type). Props/C19Src.v: the control "
+            "flow of registration.py's _register_* (order checks / duplicate test / write, map and version key), the "
+            "shape of _validate_props and class_for_type's exclusive category dispatch, read from the source by "
+            "tr_regflow (fail-closed), are what the model transcribes (an interpreter of the source's step lists IS "
+            "the model's register_* function).",
+    "design_ref": "DESIGN.md 6/C19, 7 row C19; design_notes/C19.md",
     "note": "Trusted: Coq kernel + vm_compute, tr_regex translator (regex TEXTS are tied, the recognisers restate "
             "Python's re semantics by hand and are compared with re on generated names every run), "
             "coq/Spec/NamingSpec.v written from the normative text (character sets, lengths, no double hyphen: "
@@ -959,6 +965,20 @@ def check(run):
         if gen_ok:
             res = common.build_props("Props/C19.v")
             run.add_build(res, "make -C coq Props/C19.vo (coqc 8.16.1, full .vo) + Print Assumptions per theorem")
+            # the control flow of registration.py / registry.class_for_type read from the source
+            try:
+                ftext, finfo = tr_regflow.translate(common.REPO, None)
+                common.write_if_changed(os.path.join(common.COQ, "Gen", "RegFlow.v"), ftext)
+                run.coverage["source_control_flow"] = {"validate_props": finfo["validate_props"], "ext_name_check": finfo["ext_check"],
+                                                       "class_for_type_exclusive": finfo["cft_exclusive"]}
+                res3 = common.build_props("Props/C19Src.v")
+                run.add_build(res3, "make -C coq Props/C19.vo Props/C19Src.vo (coqc 8.16.1, full .vo) + Print Assumptions per theorem")
+            except tr_regflow.TranslateError as e:
+                run.broken.append(Broken("translator", "tr_regflow", {"error": str(e)}))
+                run.coverage["obligations"] += len(common.theorems_in("Props/C19Src.v"))
+            except Exception as e:  # noqa: BLE001
+                run.broken.append(Broken("translator", "tr_regflow", {"error": "%s: %s" % (type(e).__name__, e)}))
+                run.coverage["obligations"] += len(common.theorems_in("Props/C19Src.v"))
             # the part of `custom types inherit` that is evaluated on the schema family's generated tables
             mine = ("Props/C19Inherit.v", "Proofs/C19Inherit.v", "Proofs/C19InheritRefine.v", "Proofs/C19InheritTables.v",
                     "Proofs/C19Bridge.v", "Model/RegistryBuilder.v")
@@ -1190,6 +1210,8 @@ def check(run):
 
     run.coverage["trusted_base"] += [
         "translators/tr_regex.py (regex texts, shape of _validate_type, DEFAULT_VERSION, live built-in registries; fail-closed)",
+        "translators/tr_regflow.py (statement forms of _register_*, _validate_props, class_for_type matched after normalisation; "
+        "fail-closed); the step interpreter Model/RegistryFlow.v",
         "coq/Model/Registry.v recognisers restate Python `re` semantics of four regex texts by hand (compared with `re` on "
         "generated names every run); coq/Spec/NamingSpec.v written from the normative text",
         "harness/impl/c19_impl.py: each history in a fresh interpreter; class of a refused body read from the traceback",
